@@ -30,11 +30,11 @@ prop("C01", "proof", "Lean 4 theorems: mapper == record-level retrace specificat
 prop("C02", "proof", "Lean 4 refinement proof (cache writer + reader == mapper == record-level specification) + differential correspondence",
      "Kernel-checked, for every record list in the representable domain (ReprR: names non-empty, line numbers < 2^32-1, strings valid UTF-8) whose tables fit the format's u32 counters (Small): the written bytes parse back to the written tables (serialisation round trip: little-endian u32s, 0-or-4-byte padding, header counts, LEB128-prefixed deduplicated string table); the tables represent the record stream (classes strictly sorted by name with last-block-wins, members grouped and sorted by obfuscated name in file order, by-params entries sorted by (name, args) after inline filtering and de-duplication, every offset resolving in the final string table, offsets identifying names); Rust's branch-free binary_search_by + linear range expansion on such tables return exactly the matching entries; hence class lookup, method lookup, frame remapping by line and by parameter list, throwable, text and typed stack-trace remapping and signature deobfuscation of the parsed cache equal those of the mapper (which equal the record-level specification, C01/C03/C04), for all query strings and line numbers; line-based mapper answers do not depend on the parameter index. The model is tied to the crate on every query kind over grammar, token-mutated, out-of-domain and corpus mappings, plus the direct oracle mapper == cache on the implementation's own answers.",
      "ReprR carries validUtf8 as a hypothesis (Rust's &str guarantees it for actual records). Small (counts < 2^32, string section < 2^32-1 bytes) is forced by the format.",
-     theorems=["PG.C02_parses", "PG.C02_class", "PG.C02_method", "PG.C02_frame_line", "PG.C02_frame_params", "PG.C02_frame", "PG.C02_throwable", "PG.C02_text", "PG.C02_typed", "PG.C02_signature", "PG.C02_pm_indep"])
+     theorems=["PG.C02_parses", "PG.C02_class", "PG.C02_method", "PG.C02_frame_line", "PG.C02_frame_params", "PG.C02_frame", "PG.C02_throwable", "PG.C02_text", "PG.C02_typed", "PG.C02_signature", "PG.C02_pm_indep"], oracle=True)
 prop("C03", "proof", "Lean 4 theorems: parameter-based retrace of mapper == specification (all record lists), cache == mapper (C02) + differential correspondence",
      "Parameter-based retrace of model vs crate on multi-class mappings with inline groups and repeated entries; oracle: mapper(pm) == cache, no duplicate methods, line 0 / no file.",
      "Model hand-written; tie is differential. Mapper side proved against PG/Spec/Retrace.lean (non-inlined entries, first occurrence per (obf,args,name), file order, line 0, no file, no duplicates, block-local); the cache side is C02.",
-     theorems=["PG.C03_mapper", "PG.C03_pm_false", "PG.C03_line_file", "PG.C03_no_inlined", "PG.C03_nodup", "PG.C03_class_local", "PG.C03_cache"])
+     theorems=["PG.C03_mapper", "PG.C03_pm_false", "PG.C03_line_file", "PG.C03_no_inlined", "PG.C03_nodup", "PG.C03_class_local", "PG.C03_cache"], oracle=True)
 prop("C04", "proof", "Lean 4 theorems: class/method lookup of mapper == specification, cache == mapper (C02) + differential correspondence",
      "Class and method lookup of model vs crate on adversarially similar names and sort-order neighbours; oracle: method answer implies every line-based frame carries it.",
      "Model hand-written; tie is differential. Mapper side proved against PG/Spec/Retrace.lean (class lookup = last class line with that name; method lookup answers iff all entries agree; then every line-based frame carries that name); the cache side is C02.",
